@@ -439,6 +439,7 @@ func AdvanceClock() {
 		time.Sleep(time.Duration(Param("native_clock_ms", 1300)) * time.Millisecond)
 	}
 }
+
 // SetClock pins the ghost clock to a concrete instant under gosym; natively real time passes.
 func SetClock(ns uint64) {}
 
